@@ -6,6 +6,8 @@ showed) pick a different value to put on the wire.  Every shard therefore runs i
 modes, chosen by its descriptor:
 
   desc["debuglog"] falsy  -> logging disabled altogether (fast path, isEnabledFor() False)
+  desc["loglevel"] == "warning" (and debuglog falsy)
+                          -> the library default: loggers at WARNING, records formatted by the same sink
   desc["debuglog"] truthy -> the `bellows` and `zigpy` loggers at DEBUG with a handler that
                              *formats* every record (so lazy %-arguments are evaluated) and
                              throws the text away; formatting errors are counted.
@@ -41,6 +43,9 @@ def apply(desc) -> bool:
     """Returns True when this shard runs with DEBUG logging on."""
     global SINK
     on = bool(desc.get("debuglog")) if isinstance(desc, dict) else bool(desc)
+    level = logging.DEBUG
+    if not on and isinstance(desc, dict) and desc.get("loglevel") == "warning":
+        on, level = True, logging.WARNING
     if not on:
         logging.disable(logging.CRITICAL)
         return False
@@ -50,18 +55,19 @@ def apply(desc) -> bool:
         SINK = FormatSink()
     for name in ("bellows", "zigpy"):
         lg = logging.getLogger(name)
-        lg.setLevel(logging.DEBUG)
+        lg.setLevel(level)
         lg.propagate = False
         if SINK not in lg.handlers:
             lg.addHandler(SINK)
-    return True
+    return level == logging.DEBUG
 
 
 def report(acc) -> None:
     """Adds what the sink saw to the shard's accumulator."""
     if SINK is None:
         return
-    acc.ev("debug_log_records_formatted", SINK.records)
-    acc.hit("debuglog_shards")
+    lvl = logging.getLogger("bellows").level
+    acc.ev("debug_log_records_formatted" if lvl == logging.DEBUG else "warning_log_records_formatted", SINK.records)
+    acc.hit("debuglog_shards" if lvl == logging.DEBUG else "warninglog_shards")
     for e in SINK.format_errors:
         acc.notes.append("log record could not be formatted: " + e)
